@@ -897,10 +897,11 @@ func sigPairs(ps, cs [][]KP) string {
 	return ""
 }
 
-// sig: the input contains, for a relation that will be loaded, two keys on which utils.ToStringKey
-// and SQL value equality disagree (the three known ToStringKey findings).  Computed from the
-// input tables only.
-func sig(in Input) string {
+// formerShape classifies inputs that hit one of the four defects fixed in /repo (5d340d3: identity
+// keys joined with '_' without escaping, NULL / zero printed as the text nil; 1c8b2be: empty IN over
+// several columns).  It is computed from the input tables only and is used ONLY for the
+// distribution histogram: these inputs are part of the ordinary streams and must pass.
+func formerShape(in Input) string {
 	f := fams[in.Fam]
 	rels := f.rels()
 	if in.Mode == "assoc" && len(f.Parts) > 1 {
@@ -1241,8 +1242,7 @@ func genInput(r *lib.Rng, edge bool) Input {
 
 // sweepInputs: bounded-exhaustive sweep (thorough tier) over all pairs of composite string keys
 // built from a separator / nil heavy alphabet, as two has-many parents with one child each and as
-// two belongs-to owners of two targets.  Pairs on which ToStringKey collides carry a known
-// signature; every other pair must satisfy the property.
+// two belongs-to owners of two targets.  Every pair must satisfy the property.
 func sweepInputs() []Input {
 	alpha := []string{"a", "b", "_", "a_", "_a", "nil", "a_b"}
 	var tuples [][]Val
@@ -1338,7 +1338,7 @@ func main() {
 	out.PerFile = 250
 
 	add := func(kind string, in Input) {
-		s := sig(in)
+		s := formerShape(in)
 		obs := env.run(in)
 		for _, o := range obs {
 			att, total := 0, len(o.children)
@@ -1351,7 +1351,7 @@ func main() {
 			}
 			nontriv := att > 0 && (len(distinctSets) >= 2 || total > att)
 			out.Add(lib.Case{Term: o.term(), JSON: map[string]interface{}{"input": in, "observed": o},
-				Sig: s, Kind: kind, Shape: shapeOf(in) + "|" + o.Rel, Nontriv: nontriv})
+				Sig: "", Kind: kind, Shape: shapeOf(in) + "|" + o.Rel, Nontriv: nontriv})
 			out.Count("family", in.Fam)
 			out.Count("relation", fams[in.Fam].rels()[strings.Split(o.Rel, ".")[len(strings.Split(o.Rel, "."))-1]].Kind)
 			out.Count("mode", o.Mode)
@@ -1363,7 +1363,7 @@ func main() {
 			out.Count("unscoped", fmt.Sprint(in.Unscoped))
 			out.Count("dup_parents", fmt.Sprint(in.Dup))
 			out.Count("error", fmt.Sprint(o.Err))
-			out.Count("known_shape", s)
+			out.Count("formerly_failing_shape", s)
 		}
 		if len(obs) == 0 {
 			out.Count("skipped_no_parent", in.Fam)
@@ -1391,20 +1391,13 @@ func main() {
 	}
 	for i := 0; i < budget; i++ {
 		edge := r.Chance(15, 100)
-		var in Input
-		for tries := 0; ; tries++ {
-			in = genInput(r, edge)
-			if sig(in) == "" || tries > 50 {
-				break
-			}
-			out.Count("regenerated_known_shape", sig(in))
-		}
+		in := genInput(r, edge)
 		kind := "main"
 		if edge {
 			kind = "edge"
 		}
 		add(kind, in)
 	}
-	out.Extra["rule"] = "cases = data graph over one of 4 key signatures (uint, string, (string,string), (int64,string)) x relation {has_one, has_many, belongs_to, many2many, polymorphic, self belongs_to, self has_many} x {Preload single / nested / clause.Associations / with inline or scope conditions, association Joins (+nested preload below the join), Association().Find} x Unscoped x parent shape {struct, slice, slice of pointers} x duplicated parents; key strings include separators and the text nil, foreign keys include NULL and partly NULL tuples, children include soft-deleted rows; inputs on which utils.ToStringKey and value equality disagree are excluded from the random streams (known findings, replayed from corpus/C11); distinct = distinct (family, relation, mode, path, conditions, shape, table sizes, flags) shapes; non-trivial = at least one child attached and either two parents with different non-empty attachments or a child row of the table attached to nobody"
+	out.Extra["rule"] = "cases = data graph over one of 4 key signatures (uint, string, (string,string), (int64,string)) x relation {has_one, has_many, belongs_to, many2many, polymorphic, self belongs_to, self has_many} x {Preload single / nested / clause.Associations / with inline or scope conditions, association Joins (+nested preload below the join), Association().Find} x Unscoped x parent shape {struct, slice, slice of pointers} x duplicated parents; key strings include separators and the text nil, foreign keys include NULL and partly NULL tuples, children include soft-deleted rows; the inputs of the four defects fixed in /repo (separator / nil / zero key collisions, empty composite IN) are replayed from corpus/C11 first and occur in the random streams and the sweep like any other input; distinct = distinct (family, relation, mode, path, conditions, shape, table sizes, flags) shapes; non-trivial = at least one child attached and either two parents with different non-empty attachments or a child row of the table attached to nobody"
 	lib.Must(out.Flush())
 }
